@@ -1,5 +1,4 @@
-//go:build verif
-
+//go:build verif && verif_c09
 package excelize
 
 import (
